@@ -46,15 +46,27 @@ def load_tau():
 
 def bounds(tier):
     return {"grids": GRIDS_T if tier == "thorough" else GRIDS_Q, "batch": [[], [2]],
-            "families": FAMS, "oversamp": list(OS), "width": list(WD)}
+            "families": FAMS, "oversamp": list(OS), "width": list(WD), "image dtype": ["complex128", "complex64 (documented pairs)"],
+            "coordinate draws": 1 if tier == "quick" else "3 at the documented (oversamp, width) pairs"}
 
 
 GRIDS_Q = [[4], [5], [1], [8], [7], [3, 4], [4, 4], [1, 4], [6, 1], [2, 2, 3], [2, 1, 4], [2, 3, 2], [3, 2, 2]]
-GRIDS_T = [[4], [5], [1], [8], [7], [16], [3, 4], [4, 4], [5, 3], [1, 4], [6, 1], [2, 2, 3], [3, 3, 3], [2, 1, 4], [2, 3, 2], [3, 2, 2], [4, 2, 4], [3, 4, 4]]
+GRIDS_T = [[4], [5], [1], [8], [7], [16], [3, 4], [4, 4], [5, 3], [1, 4], [6, 1], [2, 2, 3], [3, 3, 3], [2, 1, 4], [2, 3, 2], [3, 2, 2], [4, 2, 4], [3, 4, 4],
+           [32], [31], [8, 8], [6, 5], [9, 4], [4, 4, 4], [3, 4, 5], [5, 2, 6]]
 FAMS = ["random", "ongrid", "half", "cluster", "outside", "dense", "shifted", "far"]
 
 
 def gen_cases(tier, seed):
+    cases = _gen_cases(tier, seed)
+    if tier == "thorough":
+        # two further draws of every seeded coordinate family at the two documented (oversamp, width) pairs
+        more = [dict(c, cseed=k) for c in cases for k in (1, 2)
+                if c["fam"] in ("random", "cluster", "dense", "far", "outside", "shifted") and (c["oversamp"], c["width"]) in ((1.25, 4), (2, 4))]
+        cases += more
+    return cases
+
+
+def _gen_cases(tier, seed):
     T = tier == "thorough"
     cases = []
     for grid in (GRIDS_T if T else GRIDS_Q):
@@ -116,7 +128,7 @@ def ndft_matrix(grid, coord):
 def measure(case, seed):
     import sigpy as sp
     grid, batch = case["grid"], case["batch"]
-    coord = make_coords(case, seed)
+    coord = make_coords(case, seed + 101 * case.get("cseed", 0))
     osf, w = case["oversamp"], case["width"]
     E1 = ndft_matrix(grid, coord)
     B = dense.prod(batch)
